@@ -479,6 +479,26 @@ func randLoc(r *rand.Rand, depth, plen int) *oracle.Loc {
 		if r.Intn(2) == 0 {
 			d = 0
 		}
+		if i > 0 && r.Intn(6) == 0 {
+			// alternative forms of one element: an earlier part again, sharing one boundary of its first span and
+			// differing by one to three bases at the other (transcripts with a common 3' or 5' end)
+			sib := cloneLoc(l.Subs[r.Intn(i)])
+			leaf := sib
+			for len(leaf.Subs) > 0 {
+				leaf = leaf.Subs[0]
+			}
+			if leaf.Kind == oracle.LocSpan {
+				if d := 1 + r.Intn(3); r.Intn(2) == 0 && leaf.Start+d <= leaf.End {
+					leaf.Start += d
+				} else if leaf.Start-d >= 1 {
+					leaf.Start -= d
+				} else if leaf.End+d <= plen {
+					leaf.End += d
+				}
+				l.Subs = append(l.Subs, sib)
+				continue
+			}
+		}
 		l.Subs = append(l.Subs, randLoc(r, d, plen))
 	}
 	return l
